@@ -4,6 +4,8 @@ package tls
 
 import (
 	"bytes"
+	"crypto/cipher"
+	"fmt"
 	"io"
 	"net"
 	"time"
@@ -64,4 +66,156 @@ func ZVC32ReadHandshakes(stream []byte, vers uint16) (ev []ZVC32Event, consumed 
 	}
 	consumed = len(stream) - sc.r.Len() - c.rawInput.Len()
 	return ev, consumed, c.hand.Len(), c.retryCount, eof
+}
+
+// ---- halfConn.decrypt on re-framed records (C32: the length guards of every record-protection class) ----------------
+
+// ZVC32DecryptCase: what the real code says about one (suite, version) read state and one record.
+type ZVC32DecryptCase struct {
+	OK bool // the suite exists at that version
+	// the read half-connection as the real code sees it
+	Kind                            string // none, stream, aead, cbc
+	Block, Nonce, Overhead, MacSize int    // c.BlockSize(), hc.explicitNonceLen(), c.Overhead(), hc.mac.Size()
+	HasMac                          bool
+	GenuineLen                      int // payload length of the record the real encrypt produced
+	// what the primitives yield on the re-framed record (inputs of the model; the model does no cryptography):
+	// Dec  CBC: the payload after the explicit IV, decrypted (nil when the real guards would not decrypt it);
+	//      TLS 1.3, unmodified record: the inner plaintext (content || type)
+	// Auth the MAC / AEAD tag verifies (true exactly for the unmodified record)
+	Dec  []byte
+	Auth bool
+	// the real decrypt
+	Out string // "plain <type> <len>", "alert <n>", "panic"
+	Pan string
+}
+
+type zvDetRand struct{ x byte }
+
+func (r *zvDetRand) Read(p []byte) (int, error) {
+	for i := range p {
+		r.x = r.x*73 + 41
+		p[i] = r.x
+	}
+	return len(p), nil
+}
+
+func zvKeyBytes(n int, tag byte) []byte {
+	b := make([]byte, n)
+	for i := range b {
+		b[i] = tag + byte(7*i)
+	}
+	return b
+}
+
+// ZVC32Decrypt lets the real encrypt produce one protected record (content type typ, plaintext plain) under the
+// cipher suite (0: no cipher) at version vers with fixed keys, re-frames its payload to n bytes (mode "cut": prefix of
+// the genuine payload, filler when longer; "same": untouched; "flip": last byte changed; n ignored for the last two),
+// sets the outer type to outerTyp when non-zero, and hands the result to the real decrypt of a fresh read state.
+func ZVC32Decrypt(suite, vers uint16, typ byte, plain []byte, mode string, n int, outerTyp byte) (res ZVC32DecryptCase) {
+	wr, rd := &halfConn{version: vers}, &halfConn{version: vers}
+	var freshCBC func() cbcMode
+	switch {
+	case suite == 0:
+	case vers == VersionTLS13:
+		cs := cipherSuiteTLS13ByID(suite)
+		if cs == nil {
+			return
+		}
+		key, iv := zvKeyBytes(cs.keyLen, 1), zvKeyBytes(aeadNonceLength, 2)
+		wr.cipher, rd.cipher = cs.aead(key, iv), cs.aead(key, iv)
+	default:
+		cs := cipherSuiteByID(suite)
+		if cs == nil || (cs.flags&suiteTLS12 != 0 && vers < VersionTLS12) {
+			return
+		}
+		key, iv, mk := zvKeyBytes(cs.keyLen, 1), zvKeyBytes(cs.ivLen, 2), zvKeyBytes(cs.macLen, 3)
+		if cs.aead != nil {
+			wr.cipher, rd.cipher = cs.aead(key, iv), cs.aead(key, iv)
+		} else {
+			wr.cipher, rd.cipher = cs.cipher(key, iv, false), cs.cipher(key, iv, true)
+			wr.mac, rd.mac = cs.mac(mk), cs.mac(mk)
+			if _, ok := rd.cipher.(cbcMode); ok {
+				freshCBC = func() cbcMode { return cs.cipher(key, iv, true).(cbcMode) }
+			}
+		}
+	}
+	res.OK = true
+	hdr := []byte{typ, byte(vers >> 8), byte(vers), byte(len(plain) >> 8), byte(len(plain))}
+	if vers == VersionTLS13 {
+		hdr[1], hdr[2] = 3, 3
+	}
+	rec, err := wr.encrypt(hdr, plain, &zvDetRand{})
+	if err != nil {
+		res.OK = false
+		return
+	}
+	genuine := rec[recordHeaderLen:]
+	res.GenuineLen = len(genuine)
+	payload := append([]byte(nil), genuine...)
+	switch mode {
+	case "cut":
+		payload = make([]byte, n)
+		for i := copy(payload, genuine); i < n; i++ {
+			payload[i] = byte(0xa5 + i)
+		}
+	case "flip":
+		if len(payload) > 0 {
+			payload[len(payload)-1] ^= 1
+		}
+	}
+	if outerTyp == 0 {
+		outerTyp = rec[0]
+	}
+	res.Auth = bytes.Equal(payload, genuine) && outerTyp == rec[0]
+	// exact-capacity record, as a slice of a larger buffer would hide out-of-range high bounds
+	record := make([]byte, 0, recordHeaderLen+len(payload))
+	record = append(record, outerTyp, rec[1], rec[2], byte(len(payload)>>8), byte(len(payload)))
+	record = append(record, payload...)
+
+	res.Nonce = rd.explicitNonceLen()
+	if rd.mac != nil {
+		res.HasMac, res.MacSize = true, rd.mac.Size()
+	}
+	switch c := rd.cipher.(type) {
+	case nil:
+		res.Kind = "none"
+	case cipher.Stream:
+		res.Kind = "stream"
+	case aead:
+		res.Kind, res.Overhead = "aead", c.Overhead()
+		if vers == VersionTLS13 && res.Auth {
+			res.Dec = append(append([]byte(nil), plain...), typ)
+		}
+	case cbcMode:
+		res.Kind, res.Block = "cbc", c.BlockSize()
+		// the decrypted bytes, from a second decrypter with the same key (independent of the guards under test)
+		if bs := c.BlockSize(); len(payload)%bs == 0 && len(payload) >= res.Nonce && len(payload) > res.Nonce {
+			f := freshCBC()
+			body := append([]byte(nil), payload...)
+			if res.Nonce > 0 {
+				f.SetIV(body[:res.Nonce])
+				body = body[res.Nonce:]
+			}
+			f.CryptBlocks(body, body)
+			res.Dec = body
+		}
+	}
+	func() {
+		defer func() {
+			if r := recover(); r != nil {
+				res.Out, res.Pan = "panic", fmt.Sprint(r)
+			}
+		}()
+		out, t, err := rd.decrypt(record)
+		if err != nil {
+			if a, ok := err.(Alert); ok {
+				res.Out = fmt.Sprintf("alert %d", uint8(a))
+			} else {
+				res.Out = "err"
+			}
+			return
+		}
+		res.Out = fmt.Sprintf("plain %d %d", t, len(out))
+	}()
+	return res
 }
